@@ -5350,3 +5350,131 @@ func init() {
 	txt := "padding is the distance to the boundary, not the distance from it: in the arm of `x%K != 0` the remainder x%K is not itself added to a cursor or size (8 - msgSize%8 written as msgSize%8 puts the next message of a version 1 header at an unaligned place: the header reads back with one message instead of two)"
 	shareRule([]string{"C11", "C05", "C06"}, txt, "C11", func(c *Ctx, r *Result, id string) { remainderAsPaddingRule(c, r, id, 8) })
 }
+
+// ======== after round 11 ========
+
+// headerWordSourceRule (syntax tree + types): a datatype header word `class | v<<4 | bits<<8` is one OR expression; within one
+// function a variable that is packed (shifted by 4 or 8) into the word of one datatype is not packed into the word of another.
+func headerWordSourceRule(c *Ctx, r *Result, rule string, floor int) {
+	type word struct {
+		class string
+		pos   string
+		vars  map[types.Object]string
+	}
+	n, bad := 0, 0
+	for _, p := range c.Pkgs {
+		if p.TypesInfo == nil || !libPackage(p.PkgPath) {
+			continue
+		}
+		info := p.TypesInfo
+		var strip func(e ast.Expr) ast.Expr
+		strip = func(e ast.Expr) ast.Expr {
+			for {
+				switch x := e.(type) {
+				case *ast.ParenExpr:
+					e = x.X
+					continue
+				case *ast.CallExpr:
+					if tv, ok := info.Types[x.Fun]; ok && tv.IsType() && len(x.Args) == 1 {
+						e = x.Args[0]
+						continue
+					}
+				}
+				return e
+			}
+		}
+		var leaves func(e ast.Expr, out *[]ast.Expr)
+		leaves = func(e ast.Expr, out *[]ast.Expr) {
+			if pe, ok := e.(*ast.ParenExpr); ok {
+				leaves(pe.X, out)
+				return
+			}
+			if b, ok := e.(*ast.BinaryExpr); ok && b.Op == token.OR {
+				leaves(b.X, out)
+				leaves(b.Y, out)
+				return
+			}
+			*out = append(*out, e)
+		}
+		for _, file := range p.Syntax {
+			if strings.HasSuffix(p.Fset.Position(file.Pos()).Filename, "_test.go") {
+				continue
+			}
+			for _, d := range file.Decls {
+				fd, ok := d.(*ast.FuncDecl)
+				if !ok || fd.Body == nil {
+					continue
+				}
+				var words []word
+				ast.Inspect(fd.Body, func(nd ast.Node) bool {
+					b, ok := nd.(*ast.BinaryExpr)
+					if !ok || b.Op != token.OR {
+						return true
+					}
+					var ls []ast.Expr
+					leaves(b, &ls)
+					w := word{vars: map[types.Object]string{}, pos: c.Pos(b.Pos())}
+					for _, l := range ls {
+						in := strip(l)
+						if sh, isSh := in.(*ast.BinaryExpr); isSh && sh.Op == token.SHL {
+							tv, isK := info.Types[sh.Y]
+							if !isK || tv.Value == nil {
+								continue
+							}
+							k, _ := constant.Int64Val(constant.ToInt(tv.Value))
+							if k != 4 && k != 8 {
+								continue
+							}
+							if id, isID := strip(sh.X).(*ast.Ident); isID {
+								if v, isV := info.Uses[id].(*types.Var); isV && !v.IsField() {
+									w.vars[v] = id.Name
+								}
+							}
+							continue
+						}
+						t := info.TypeOf(in)
+						if t == nil {
+							continue
+						}
+						if nt, isN := t.(*types.Named); isN && nt.Obj().Name() == "DatatypeClass" {
+							if sel, isSel := in.(*ast.SelectorExpr); isSel {
+								w.class = "of " + types.ExprString(sel.X)
+							} else {
+								w.class = "the constant " + types.ExprString(in)
+							}
+						}
+					}
+					if w.class != "" {
+						n++
+						words = append(words, w)
+					}
+					return false
+				})
+				for i := range words {
+					for j := i + 1; j < len(words); j++ {
+						if words[i].class == words[j].class {
+							continue
+						}
+						for v, name := range words[j].vars {
+							if _, shared := words[i].vars[v]; shared {
+								bad++
+								r.Viol(rule, fmt.Sprintf("%s#%s-packed-into-two-headers-%d", fd.Name.Name, name, bad), words[j].pos, fmt.Sprintf("%s is packed into the header word of the datatype with class %s (%s) and into the header word of the datatype with class %s: one of the two datatypes is written with the other's version or bit field", name, words[i].class, words[i].pos, words[j].class))
+							}
+						}
+					}
+				}
+			}
+		}
+	}
+	if bad == 0 {
+		r.Hold(rule, "module#no-variable-packed-into-the-header-words-of-two-datatypes", "", fmt.Sprintf("%d datatype header words examined", n))
+	}
+	if n < floor {
+		r.Shortfall(c, rule, fmt.Sprintf("%s: only %d datatype header words found (expected >= %d)", rule, n, floor))
+	}
+}
+
+func init() {
+	txt := "each datatype header word takes its version and bit field from its own datatype: within one function no variable is shifted into the `class | version<<4 | bits<<8` word of two different datatypes (the compound's own `version` packed into a member's header writes every member as version 3: a version 1 member reads back with another version, and a reader that switches on it takes the wrong layout)"
+	shareRule([]string{"C11", "C01"}, txt, "C11", func(c *Ctx, r *Result, id string) { headerWordSourceRule(c, r, id, 6) })
+}
